@@ -73,6 +73,10 @@ def draw_delims(rng, icvn, segs, charset='E'):
         if d[2] not in allowed or (icvn == '00501' and d[3] not in allowed):
             continue
         return d
+    # fallback: the usual triple, with a repetition character the declared charset allows
+    for rep in ['^', '+', '!', '&', '(', ')', '/', '?', ';', '=']:
+        if (icvn != '00501' or rep in allowed) and rep not in data and rep not in '~*:':
+            return ['~', '*', ':', rep]
     return ['~', '*', ':', '^']
 
 
